@@ -86,26 +86,6 @@ def json_key(x):
     return json.dumps(x, sort_keys=True, default=str)
 
 
-def scribble_result(result):
-    """a result belongs to the caller: whatever the caller does to it must not reach later builds"""
-    for g in list(result.files):
-        for attr, val in (('contents', '// scribbled by the caller\n'), ('filename', 'scribbled.hh')):
-            try:
-                setattr(g, attr, val)
-            except Exception:  # noqa  (frozen)
-                pass
-        try:
-            if g.namespace is not None:
-                g.namespace.items.append('Scribbled')
-        except Exception:  # noqa
-            pass
-    try:
-        result.files.reverse()
-        result.files.pop()
-    except Exception:  # noqa
-        pass
-
-
 def op_history(c):
     """models parsed once and shared; steps = [model index, cfg]; every build: snapshot inputs before/after"""
     # share_builder: one Builder instance serves every build of the history (otherwise a new one per build);
@@ -126,7 +106,6 @@ def op_history(c):
         try:
             result = (builder or Builder()).build(cfg)
             res = [0, buildlib.files_obs(result)]
-            scribble_result(result)
         except RecursionError:
             res = ['RecursionError']
         except Exception as e:  # noqa
